@@ -6,5 +6,14 @@ St(v, r, cl, rl, rt) == [via |-> v, reg |-> r, called |-> cl, released |-> rl, r
 Cur == St(via, reg, called, released, returned)
 Nxt == St(via', reg', called', released', returned')
 EmitT == PrintT(<<"TR", ToJson([f |-> Cur, e |-> last', t |-> Nxt])>>)
+\* symmetry breaking for the export: waiters are interchangeable, so they register in the order w1, w2, ...
+WOrder == <<"w1", "w2", "w3", "w4", "w5", "w6", "w7", "w8">>
+Idx(w) == CHOOSE i \in 1 .. 8 : WOrder[i] = w
+NewW   == IF last'.op \in {"call", "reg", "race"} THEN last'.ws ELSE {}
+OrderedReg == \A w \in NewW : \A i \in 1 .. (Idx(w) - 1) : WOrder[i] \in Waiters => reg[WOrder[i]] # NoCode
+EmitOrd == OrderedReg /\ EmitT
+\* quotient for the export: what a released waiter asked for, and whether its call has already returned, has no
+\* influence on later steps; the number of requests so far has none either (MaxReq is set high in the export cfg)
+ViewLts == <<via, waiting, {w \in Waiters : reg[w] # NoCode}>>
 ASSUME PrintT(<<"UN", ToJson([waiters |-> Waiters, codes |-> Codes, table |-> TableSize, waitcode |-> WaitCode])>>)
 =============================================================================
